@@ -249,20 +249,45 @@ class SymInt:
     def __truediv__(self, o):
         return SymReal(z3.ToReal(self.t)) / o
 
+    def _and_const(self, m):
+        """x & m for a constant m >= 0 and x proven >= 0: sum over the runs of one-bits of m"""
+        if m == 0:
+            return 0
+        t = None
+        bit = 0
+        while (m >> bit):
+            if (m >> bit) & 1:
+                hi = bit
+                while (m >> (hi + 1)) & 1:
+                    hi += 1
+                w = hi - bit + 1
+                part = ((self.t / (1 << bit)) % (1 << w)) * (1 << bit) if bit else self.t % (1 << w)
+                t = part if t is None else t + part
+                bit = hi + 1
+            else:
+                bit += 1
+        return SymInt(t)
+
     def __and__(self, o):
-        if isinstance(o, int) and _is_pow2m1(o):
-            return SymInt(self.t % (o + 1))
+        if isinstance(o, int) and not isinstance(o, bool) and o >= 0:
+            if _is_pow2m1(o):
+                return SymInt(self.t % (o + 1))       # also right for negative x (python's infinite two's complement)
+            if CUR.implied(self.t >= 0):
+                return self._and_const(o)
         return self._degrade('and') & o
     __rand__ = __and__
 
     def __or__(self, o):
+        if isinstance(o, int) and not isinstance(o, bool) and o >= 0 and CUR.implied(self.t >= 0):
+            return self + o - self._and_const(o)
         return self._degrade('or') | o
     __ror__ = __or__
 
     def __xor__(self, o):
-        if isinstance(o, int) and _is_pow2m1(o):
-            if CUR.implied(z3.And(self.t >= 0, self.t <= o)):
+        if isinstance(o, int) and not isinstance(o, bool) and o >= 0 and CUR.implied(self.t >= 0):
+            if _is_pow2m1(o) and CUR.implied(self.t <= o):
                 return SymInt(o - self.t)
+            return self + o - 2 * self._and_const(o)
         return self._degrade('xor') ^ o
     __rxor__ = __xor__
 
